@@ -1,9 +1,10 @@
 /-
-  Model of pgdump/remote.go (RemoteClient) — the tree after fixes/cluster/01..04:
+  Model of pgdump/remote.go (RemoteClient) — the tree after fixes/cluster/01..06:
     01 Tables() returns the relations in filenode order (was: map iteration order)
     02 DumpDatabase keeps only ordinary tables (relkind 'r'; was: every relkind)
     03 Table()/Database(): exact name first, then the first case-insensitive match in filenode / heap order
     04 QueryResult.String / formatDump print the columns in sorted order (text only; not modelled here)
+    06 the cache is guarded by a mutex (no change of sequential behaviour, hence none here)
 
   The client's cache is explicit state (`Cache`), threaded through every method exactly where the Go code
   reads or writes it; the `…Cold` functions are the same computations without any cache.  C11_no_hidden_state
